@@ -33,6 +33,12 @@ NoException == Ok \/ Fail(Pid, "NoException")
 \* every captured value is the value the netlist gives to that pin
 CapturedIsEval == (Ok => LET v == Eval(St, R.m, Asg) IN
                      \A i \in 1..NS : HasCapture(St, i) => R.resp[i][p] = Captured(St, v, i)) \/ Fail(Pid, "CapturedIsEval")
+\* KNOWN FINDING (DESIGN 11.6): under the plain reading of "gate by gate" a port that has a driver is an ordinary signal; the
+\* simulators feed its readers from the assigned value instead.  Judged for 2-valued runs of circuits that have such a port.
+HasTopoN == "topon" \in DOMAIN St
+DrivenPortsAreSignals == (Ok /\ R.m = 2 /\ HasTopoN /\ TopoNOK(St) =>
+                            LET v == EvalN(St, 2, Asg) IN
+                            \A i \in 1..NS : HasCapture(St, i) => R.resp[i][p] = Captured(St, v, i)) \/ Fail("C01", "DrivenPortsAreSignals")
 \* lanes beyond the number of patterns in the last byte do not influence any pattern
 PaddingIndependent == (Ok => \A i \in 1..NS : HasCapture(St, i) => R.resp[i][p] = R.respB[i][p]) \/ Fail(Pid, "PaddingIndependent")
 \* C01: k cycles = next-state function applied k times with the primary inputs held
